@@ -31,18 +31,39 @@ def gen(rng, tier, profile, count):
     big = tier != "quick"
     for k in range(count):
         c = Case("lig-%d" % k, "c13")
+        ml = rng.random() < 0.4
         co, shape = _poly(rng, big)
+        if ml:
+            nv = rng.randint(1, 8 if big else 6)
+            shape = rng.choice(["dense", "dense", "sparse", "zero", "const", "single"])
+            n = 1 << nv
+            if shape == "zero":
+                co = [0] * n
+            elif shape == "const":
+                co = [rf_uniform(rng, P)] * n
+            elif shape == "sparse":
+                co = [rf_uniform(rng, P) if rng.random() < 0.25 else 0 for _ in range(n)]
+            elif shape == "single":
+                co = [0] * n
+                co[rng.randrange(n)] = rf_nz(rng, P)
+            else:
+                co = [rf_uniform(rng, P) for _ in range(n)]
         wf = rng.choice([0, 1, 1])
         rho = rng.choice([2, 2, 3, 4, 4, 5, 8])
         sec = rng.choice([20, 40, 80, 128]) if not big else rng.choice([40, 80, 100, 128])
         c.set("sub", "ligflow").set("lig", sec, rho, wf).set("poly", co)
-        c.set("pt", rng.choice([0, 1, P - 1]) if rng.random() < 0.1 else rf_uniform(rng, P))
+        if ml:
+            c.set("scheme", "ligero_ml").set("num_vars", nv)
+            c.set("pt", [rng.choice([0, 1]) if rng.random() < 0.15 else rf_uniform(rng, P) for _ in range(nv)])
+        else:
+            c.set("scheme", "ligero_uni")
+            c.set("pt", rng.choice([0, 1, P - 1]) if rng.random() < 0.1 else rf_uniform(rng, P))
         c.set("delta", rng.choice([1, P - 1, rf_nz(rng, P)]))
         nm = 0 if profile == "c01" else (3 if profile == "c02" else 8)
         kinds = rng.sample(MUTS, min(nm, len(MUTS)))
         for i, kd in enumerate(kinds):
             c.set("mut.%d" % i, kd, rng.randrange(64), rng.randrange(64))
-        c.meta["shapes"] = ["lig:%s" % shape, "lig:rho%d" % rho, "lig:wf%d" % wf] + ["lig:mut:%s" % kd for kd in kinds]
+        c.meta["shapes"] = ["lig:%s:%s" % ("ml" if ml else "uni", shape), "lig:rho%d" % rho, "lig:wf%d" % wf] + ["lig:mut:%s" % kd for kd in kinds]
         c.meta["in_domain"] = True
         c.meta["mut_kinds"] = kinds
         cases.append(c)
